@@ -162,27 +162,34 @@ ADDED = {
            '(special_opcodes evaluated).',
     'C02': ' Also (D5-D8): the reverse ModRM table has an empty reg field, decodes back and is complete; displacements outside the brackets are accumulated; multi-immediate rows are '
            'encoded in the order they are decoded; every predicate by which _dis rejects an (opcode, mandatory prefix) pair is applied to the assembler\'s candidates; a register the table fixes (dx of in/out) does not select '
-           'the operand size (detection loop evaluated).',
+           'the operand size (detection loop evaluated). '
+           'D9: the 0x66 prefix of mnemonics shared by the mm and xmm forms is selected iff an operand is xmm (evaluated on 8 operand shapes per name).',
     'C03': ' Also (D5): for movs/cmps/lods a segment override is printed (operand elision of __str__ evaluated) and turned back into the prefix by normalize_args (evaluated). D7: every '
            'mnemonic list by which _dis rejects or sizes an operand form is consulted by the same branch of the assembler; D8: x87 st(i) rows pass check_size_modif (evaluated) with the size '
            'the parser gives st(i) and agree with the implicit-operand lists; D3: every renamed row copy the decoder uses is a name the assembler finds.',
     'C04': ' Also (D7): CF and OF of mul/imul are computed from the double-width product (the high half; for the signed forms compared with the sign extension of the low half), decided on '
-           'the lifted templates of every operand form; (D8) aaa/aas/daa/das: the lifted assignments evaluated on every al x AF x CF x 5 values of ah equal the SDM pseudo-code.',
+           'the lifted templates of every operand form; (D8) aaa/aas/daa/das: the lifted assignments evaluated on every al x AF x CF x 5 values of ah equal the SDM pseudo-code. '
+           'D9: push/pop through esp use the value of esp IA-32 prescribes (addresses of the lifted templates evaluated).',
     'C05': ' Also (D4/D5): rewrites are selected by their action; constant folding demands equal widths of associative operands only; every tab_size_int[K] lookup of the simplifier is '
-           'dominated by a membership test, by an isinstance(.., ExprInt) on the value or an operand of it, or ranges over the table keys (no KeyError on 4/24/31-bit slices).',
+           'dominated by a membership test, by an isinstance(.., ExprInt) on the value or an operand of it, or ranges over the table keys (no KeyError on 4/24/31-bit slices). '
+           'D7: the parity fold is the parity of the low byte at every width (both parity functions evaluated).',
     'C06': ' Also: operators the lifter builds with operands of different widths and evaluable operands are exempt from the operand-type check (op_size_no_check names only real operators); '
            'width-indexed tables cover every constant width; no sign test on an unsigned operand; the through-carry rotations widen their operand before shifting; left shifts bound the count; '
            'eval_ExprCompose recognises constant slice pieces (widths the lifter composes that no ExprInt can carry); memory cells are stored under the simplified address they are looked up with (D7); the division / multiplication evaluators (div, rem, idiv, irem, umul/imul hi/lo of widths 8/16/32) '
            'are executed from their source on boundary vectors and agree with the integer definitions, divide-error conditions included (D5).',
     'C07': ' Also (D5/D7): every exit of the rep loop is count==0 or the zf test, a symbolic zf is rejected; a value (pool content, evaluation result, stored address) is never passed to '
-           'eval_expr again (source-order taint with parameters propagated through the self-call graph).',
-    'C08': ' Also (D4): lds/les/lss read the selector operand-size/8 bytes after the offset.',
+           'eval_expr again (source-order taint with parameters propagated through the self-call graph). '
+           'D9: eval_ExprCompose folds constant pieces around a conditional piece to their concatenation (evaluated on 7 layouts).',
+    'C08': ' Also (D4): lds/les/lss read the selector operand-size/8 bytes after the offset. '
+           'D6: the cells push/pop through esp read and write (shared with C04.D9).',
     'C09': ' Also (D6): a string instruction whose Intel name is an SSE mnemonic (movsd/cmpsd) is not rendered under that name in AT&T syntax. D8: operand order (reversed except bound/enter) '
            'agrees between the AT&T branch of __str__ and mnemo_from_att, both evaluated; D9: memory forms rendered under a suffix-less AT&T mnemonic pass the size check of their row after '
-           'mnemo_from_att, normalize_args and the operand completion of asm_candidates (all evaluated).',
+           'mnemo_from_att, normalize_args and the operand completion of asm_candidates (all evaluated). '
+           'D10: arg_set_numpy_imm types an immediate with the operand size (evaluated).',
     'C10': ' Also (D4/D5): a decode that finds no instruction restores the stream offset; mnemo_from_att, evaluated on every mnemonic-like name (Intel names, AT&T table entries, +/- suffix '
            'letters) x operand shape, returns or raises ValueError; constant operand indices of __str__ are reachable only with enough operands (string-instruction operand counts and '
-           'row-dependent guards evaluated); dictionary displays subscripted in the assembler have table-derived keys that are always present, or a membership test.',
+           'row-dependent guards evaluated); dictionary displays subscripted in the assembler have table-derived keys that are always present, or a membership test. '
+           'D6: every operand fetch reads the number of bytes its mode prescribes (shared with C01.D3).',
     'C12': ' Also (D2/D6): every method of the evaluator class counts as an entry point whose defaults callers omit (dict-dispatch callees resolved); sys.path / sys.modules replaced inside a '
            'function are restored in a finally.',
     'C14': ' The template family includes the bounded left shift (count >= width of the result class gives 0; a bound taken from a narrower class is a violation) and the modular power '
@@ -194,7 +201,8 @@ ADDED = {
            'class, parse_opts/str2name/parse_args, field parse/bin): exhaustively over BO x BI x AA x LK for bc/bclr/bcctr, and on boundary field vectors x every extended opcode for every '
            'other class; the text must be accepted by exactly its own class and every field must come back.',
     'C19': ' Also (D4): both parsers give a shared register name the same operand size; every condition-code alias (cmovcc/setcc) is read back from AT&T syntax as itself with and without '
-           'size suffix.',
+           'size suffix. '
+           'D5: the operand-size detection gives the same mode for Intel- and AT&T-parsed operands.',
 }
 
 PENDING = {}
